@@ -92,6 +92,20 @@ func init() {
 		}
 		return nil, ExceptionNewf(KeyError, "%v", args[0])
 	}, 0, "gets(key, default) -> If there is a val corresponding to key, return val, otherwise default")
+
+	StringDictType.Dict["update"] = MustNewMethod("update", func(self Object, args Tuple, kwargs StringDict) (Object, error) {
+		// the arguments are those of dict(): a mapping or an iterable of
+		// pairs, and keywords; they are read before self is touched
+		other, err := DictNew(StringDictType, args, kwargs)
+		if err != nil {
+			return nil, err
+		}
+		d := self.(StringDict)
+		for k, v := range other.(StringDict) {
+			d[k] = v
+		}
+		return None, nil
+	}, 0, "update([E, ]**F) -> None.  Update D from dict/iterable E and F.")
 }
 
 // String to object dictionary
